@@ -187,7 +187,8 @@ def is_shorthand(attr: AbbreviationAttribute):
     """
     pattern = re_class_value if attr.name == 'class' else re_id_value
     for token in attr.value or []:
-        if isinstance(token, str) and not pattern.match(token):
+        # NB: placeholder of a tabstop is a part of the name as well
+        if not pattern.match(token if isinstance(token, str) else token.name or ''):
             return False
 
     return True
